@@ -99,6 +99,7 @@ def r3_version_blind(ck, F):
     rd = field_reads(F, A("meta_struct"), "file_version")
     who = sorted({b.path for b, s, st in rd})
     allowed = {A("reader_version"), A("meta_write")}
+    who = [w for w in who if not w.endswith((" as std::fmt::Debug>::fmt", " as std::fmt::Display>::fmt"))]
     ck.ob(R, "file-version-readers", set(who) <= allowed, f"Metadata.file_version is read only by {who} (getter and trailer writer) — no query code can depend on the version", config=F.config)
     ck.floor(R, "readers of file_version found", len(who), 2, F.config)
     # nobody matches on a FileVersion value outside metadata.rs
@@ -113,7 +114,8 @@ def r3_version_blind(ck, F):
                 if enum and enum.endswith("FileVersion"):
                     sw.append(b.path)
     ck.ob(R, "version-matches", set(sw) <= {A("meta_read"), A("meta_write")}, f"FileVersion is matched on only in {sorted(set(sw))}", config=F.config)
-    callers = sorted({b.path for b in F.user_bodies() for s, c, t in calls(b, A("reader_version"))})
+    # (formatting impls may print it: what `{:?}` shows is not a query result)
+    callers = sorted({b.path for b in F.user_bodies() for s, c, t in calls(b, A("reader_version")) if not b.path.endswith((" as std::fmt::Debug>::fmt", " as std::fmt::Display>::fmt"))})
     ck.ob(R, "getter-not-used-internally", not callers, f"Reader::file_version is not called by library code ({callers})", config=F.config)
     # the cursor is configured from the other metadata fields only
     rcn = F.body(A("rc_prefix") + "new")
